@@ -1,2 +1,33 @@
-(* C13 statements; proofs in Proofs/. *)
-From BaoV Require Import Model.Tree Spec.NodeSpec.
+(* C13 - post-order outboards only grow at the end (geometry part).  Statements only; proofs in Proofs/. *)
+From BaoV Require Import Model.Iter Spec.NodeSpec Proofs.ShapeBase Proofs.ShapeIter Proofs.ShapeOffsets Proofs.ShapeLayout.
+
+(* a listed node has a stable slot iff it stores a pair and its whole subtree is inside the blob;
+   the other stored nodes have an unstable slot *)
+Theorem C13_stable_iff : forall size bs nd, size <= 2 ^ 63 -> bs <= 10 -> In nd (sp_post_nodes size bs) ->
+  ((exists v, post_order_offset (mkTree size bs) nd = Some (Stable v)) <->
+   (sp_persisted size bs nd = true /\ sp_subtree_inside size nd = true)) /\
+  (sp_persisted size bs nd = true -> sp_subtree_inside size nd = false ->
+   exists v, post_order_offset (mkTree size bs) nd = Some (Unstable v)).
+Proof. exact stable_iff. Qed.
+Print Assumptions C13_stable_iff.
+
+(* a stable node keeps its slot when the blob grows (any node) *)
+Theorem C13_keeps_slot : forall size bs nd v size', size <= size' -> size' <= 2 ^ 63 ->
+  post_order_offset (mkTree size bs) nd = Some (Stable v) ->
+  post_order_offset (mkTree size' bs) nd = Some (Stable v).
+Proof. exact keeps_slot_bounded. Qed.
+Print Assumptions C13_keeps_slot.
+
+(* the size bound is not needed *)
+Theorem C13_keeps_slot_unbounded : forall size size' bs nd v, size <= size' ->
+  post_order_offset (mkTree size bs) nd = Some (Stable v) ->
+  post_order_offset (mkTree size' bs) nd = Some (Stable v).
+Proof. exact keeps_slot. Qed.
+Print Assumptions C13_keeps_slot_unbounded.
+
+(* all stable slots lie below the number of stable stored nodes, all unstable slots at or above it *)
+Theorem C13_layout : forall size bs nd v, size <= 2 ^ 63 -> bs <= 10 -> In nd (sp_post_nodes size bs) ->
+  (post_order_offset (mkTree size bs) nd = Some (Stable v) -> v < sp_stable_count size bs) /\
+  (post_order_offset (mkTree size bs) nd = Some (Unstable v) -> sp_stable_count size bs <= v).
+Proof. exact layout_spec. Qed.
+Print Assumptions C13_layout.
